@@ -296,6 +296,38 @@ class Shapes(SubCheck):
             out.fail("length of shape and Path(shape) differ", l2, l1, kind="length", **tags)
 
 
+class ShapesMag(Shapes):
+    """a reduced parameter set at magnitudes 1e-5 and 1e5 (every transform): size-dependent epsilons"""
+    name = "magnitudes"
+
+    def __init__(self, svg, tier):
+        self.svg = svg
+        base = [("rect", (1.0, 2.0, 10.0, 6.0, 2.0, 1.0)), ("rect", (0.0, 0.0, 4.0, 4.0, 2.0, 2.0)), ("rect", (3.0, -2.5, 10.0, 4.0, None, 1.5)),
+                ("rect", (3.0, -2.5, 10.0, 4.0, 100.0, None)), ("rect", (1.0, 2.0, 10.0, 6.0, None, None)),
+                ("ellipse", (4.0, -3.0, 4.0, 2.0)), ("ellipse", (0.0, 0.0, 1.0, 5.0)), ("circle", (4.0, -3.0, 2.5, 2.5)),
+                ("circle", (0.0, 0.0, 1.0, 1.0)), ("line", (1.0, 2.0, 6.0, -4.0)),
+                ("polyline", ((1.0, 2.0), (6.0, -4.0), (8.0, 3.0))), ("polygon", ((1.0, 2.0), (6.0, -4.0), (8.0, 3.0)))]
+        objs = []
+        for m in (1e-5, 1e5, 3e-7):
+            for kind, prm in base:
+                if kind in ("polyline", "polygon"):
+                    objs.append((kind, tuple((x * m, y * m) for x, y in prm)))
+                else:
+                    objs.append((kind, tuple(None if v is None else v * m for v in prm)))
+        self.objs = objs
+        self.p = Product(range(len(objs)), TNAMES, ["kw"])
+        self.bounds = dict(objects=len(objs), magnitudes=[1e-5, 1e5, 3e-7], transforms=TNAMES)
+
+    def run(self, case):
+        out = Shapes.run(self, case)
+        big = max([abs(v) for q in case["prm"] for v in (q if isinstance(q, list) else [q]) if v is not None] or [0.0]) > 1e3
+        if big:
+            # '==' compares coordinates to an absolute 1e-12: at 1e5 the last-place noise of a reify is larger than that;
+            # geometry is compared with scaled tolerances by the other oracles
+            out.disc = [d for d in out.disc if d["tags"].get("kind") != "eq"]
+        return out
+
+
 class AutoRadius(SubCheck):
     """a rect with exactly one corner radius given: the other one is the *used* value of the given one (SVG 1.1 and 2
     agree on that, whatever a percentage refers to), so both corner radii are equal unless a half-size clamps one"""
@@ -374,7 +406,7 @@ def stale_check(svg, tier):
 
 
 def build(tier, seed, svg):
-    return [Shapes(svg, tier), AutoRadius(svg), stale_check(svg, tier)]
+    return [Shapes(svg, tier), ShapesMag(svg, tier), AutoRadius(svg), stale_check(svg, tier)]
 
 
 def m_round_direction(d):
